@@ -338,3 +338,17 @@ Theorem stored_payload_never_legacy_json : forall s x y, id_widths_ok (o_trace s
   exists r, enc_spany s x y = String (Ascii.ascii_of_N 10) r /\ Ascii.ascii_of_N 10 <> "{"%char.
 Proof. exact enc_spany_first_byte. Qed.
 Print Assumptions stored_payload_never_legacy_json.
+
+(* ---- strings.  proto.Unmarshal of the request refuses a proto3 string that is not UTF-8 ([utf8_valid] = utf8.Valid: no overlong forms, no
+   encoded surrogates, nothing above U+10FFFF): such a request is refused as a whole ... *)
+Theorem non_utf8_refused : forall q b, otlp_utf8_ok b = false -> decode q (InOtlp b) = None.
+Proof. exact non_utf8_refused_l. Qed.
+Print Assumptions non_utf8_refused.
+
+(* ... and therefore every string of every stored OTLP span -- name, attribute keys and string values at any depth, the resource's attributes
+   and the service names the write path adds -- is UTF-8: proto.Marshal of the span cannot fail, the error branch after it in
+   OTLPDecoder.Decode is never taken (the model has none). *)
+Theorem stored_strings_are_utf8 : forall b rows, decode fixed (InOtlp b) = Some rows ->
+  forall sr p, In sr rows -> t_payload (fst sr) = POtlp p -> ospan_utf8 p = true.
+Proof. exact stored_strings_are_utf8_l. Qed.
+Print Assumptions stored_strings_are_utf8.
